@@ -1,4 +1,5 @@
-(* Runner for the hash-table model (HashModel.v): C03, C04, C17(b), C19.
+(* Runner for the hash-table model (HashModel.v): C03, C04, C17(b), C19;
+   component hashl = the pointer-level model HashLinksModel.v.
    Script syntax: notes/C17b.md (section "script syntax"). *)
 open Util
 open HashModel
@@ -219,6 +220,72 @@ let explore ~(vs : vers) (ntabs : int) (max_edges : int) (counts : int list) (fn
   done;
   Printf.eprintf "states %d transitions %d closed %b\n" !nstates !ntrans !closed
 
+(* ---- pointer-level model (HashLinksModel.v): component hashl.  Same scripts,
+   same trace format as hash; the chains of the dump are produced by walking
+   the node memory from every bucket's head pointer with a step bound, the
+   way the C driver walks the real structure.  " FREED(e)" = the walk met a
+   freed / never linked node e, " LOOP" = it did not end within the bound. *)
+module HL = HashLinksModel
+
+let walk_bound_steps = 2048
+
+let dump_ltable (m : HL.mem) (i : int) (t : HL.ltable) : string =
+  let b = Buffer.create 256 in
+  Printf.bprintf b "| T%d: %s %s %s %s %s %s %s %s %s" i
+    (string_of_n t.HL.l_size) (string_of_n t.HL.l_bcount) (string_of_n t.HL.l_cap) (sfn t.HL.l_hash) (sb t.HL.l_cst)
+    (string_of_n t.HL.l_rcount) (string_of_n t.HL.l_rclean) (sfn t.HL.l_rhash)
+    (match t.HL.l_at with None -> "0" | Some _ -> "1");
+  L.iter (fun bk ->
+    Printf.bprintf b " / %s" (sb bk.HL.lbit);
+    let rec go steps cur =
+      match cur with
+      | None -> ()
+      | Some e ->
+        if steps >= walk_bound_steps then Buffer.add_string b " LOOP"
+        else begin
+          match HL.rd m e with
+          | None -> Printf.bprintf b " FREED(%d)" (int_of_nat e)
+          | Some nn -> Printf.bprintf b " %d" (int_of_nat e); go (steps + 1) nn
+        end in
+    go 0 bk.HL.hd) t.HL.lbks;
+  Buffer.contents b
+
+let dump_lsys (s : HL.lsys) : string = S.concat " " (L.mapi (dump_ltable s.HL.lmem) s.HL.ltabs)
+
+let run_case_links (c : case) =
+  Printf.printf "case %s\n" c.name;
+  let cf = { keys = [||]; ntabs = 1; fails = []; from = None } in
+  let st = ref None in
+  let dead = ref false in
+  let nev = ref 0 in
+  L.iter (fun w ->
+    if not !dead && not (header cf w) then begin
+      let s = match !st with Some s -> s | None -> HL.lsys_init (nat_of_int cf.ntabs) in
+      match parse_op w with
+      | None -> Printf.printf "badop %s\n" (S.concat " " w); dead := true
+      | Some o ->
+        (match HL.lexec hf (key_of cf) (oracle_of cf) s o with
+         | HL.LDone (s', r, w) ->
+           st := Some s';
+           let evs = L.rev s'.HL.lal.AllocModel.events in
+           let fresh = L.filteri (fun i _ -> i >= !nev) evs in
+           nev := L.length evs;
+           let rs = match o with
+             | Load _ -> (match r with [a; b] -> load_bits a b | _ -> "?")
+             | _ -> zs r in
+           let keyed = match o with Insert _ | Find _ | Erase _ -> true | _ -> false in
+           Printf.printf "ok %s %s %s ;;%s\n" rs (fmt_events keyed w) (dump_lsys s')
+             (S.concat "" (L.map aev_str fresh))
+         | HL.LAbort -> print_endline "abort"; dead := true
+         | HL.LFault -> print_endline "fault"; dead := true
+         | HL.LPrecond -> print_endline "precond"; dead := true)
+    end) c.lines;
+  if not !dead then begin
+    let s = match !st with Some s -> s | None -> HL.lsys_init (nat_of_int cf.ntabs) in
+    Printf.printf "live %d\n" (L.length s.HL.lal.AllocModel.live)
+  end;
+  print_endline "end"
+
 let () =
   let variants = [ ("hash", fixed); ("hash_v0", asfound);
                    ("hash_f2", { pre_f2 = true; pre_f3 = false; pre_f4 = false });
@@ -232,4 +299,5 @@ let () =
       let prefix = if Array.length argv > 8 then
           L.filter (fun s -> s <> "") (L.map S.trim (S.split_on_char ';' argv.(8))) else [] in
       explore ~vs (int_of_string argv.(2)) (int_of_string argv.(3)) (ints argv.(4))
-        (S.split_on_char ',' argv.(5)) (ints argv.(6)) prefix argv.(7))) variants
+        (S.split_on_char ',' argv.(5)) (ints argv.(6)) prefix argv.(7))) variants;
+  register "hashl" (fun argv -> L.iter run_case_links (read_cases (input_of argv 2)))
